@@ -52,7 +52,8 @@ enum { EFF_A = 0, EFF_R, EFF_S, EFF_M };
 static const char *ALGN[] = { "single", "sequential", "happy_eyeballs", "unset" };
 static const char *DNSN[] = { "now", "late", "fails", "fails-late", "silent" };
 static const char *LAN[] = { "none", "v4:0", "v4:fixed", "v6:0", "v6:fixed" };
-static const char *LAK[] = { "none", "port0", "fixedport", "port0", "fixedport" };
+static const char *LAK[] = { "none", "port0", "port", "port0", "port" };
+static const char *ALGS[] = { "single", "sequential", "happy", "unset" };      /* in signatures */
 static const char *PRN[] = { "xcm_finish", "xcm_send", "xcm_receive" };
 static const char *POLN[] = { "accept", "refuse", "silent" };
 
@@ -582,7 +583,7 @@ static int same_ip(const char *a, const char *b)
 static void got_str(char *out, size_t n, int remote_idx)
 {
     if (g_connected)
-        snprintf(out, n, "connected-to-%s", remote_idx >= 0 ? POLN[t_pol[remote_idx]] : "unknown");
+        snprintf(out, n, "connected%s", remote_idx >= 0 ? "" : "-to-unknown-peer");
     else
         snprintf(out, n, "%s", ename(g_errno));
 }
@@ -599,7 +600,7 @@ static void oracle_conn(enum mc_end end)
 
     if (!g_cli_done) {
         snprintf(sig, sizeof sig, "C13/no-outcome/%s/alg=%s/dns=%s/tp=%s", end == MC_END_HORIZON ? "livelock" : "hang",
-                 ALGN[t_alg], DNSN[t_dns], g_tp);
+                 ALGS[t_alg], DNSN[t_dns], g_tp);
         VIOL(sig, "neither xcm_connect_a nor %s ever reported the outcome: the system is %s after %d calls, "
              "virtual time +%lld ms [%s]", PRN[t_probe], end == MC_END_HORIZON ? "still busy at the step horizon" :
              "quiescent (nothing can wake the caller)", g_calls, (long long)((env_now_ns() - g_t0) / 1000000), t_desc);
@@ -630,7 +631,7 @@ static void oracle_conn(enum mc_end end)
             if (same_ip(ip, ADDR[k]))
                 a = k;
         if (a < 0 || !t_used[a] || port != PORT) {
-            snprintf(sig, sizeof sig, "C13/connect-to-foreign-address/alg=%s/tp=%s", ALGN[t_alg], g_tp);
+            snprintf(sig, sizeof sig, "C13/connect-to-foreign-address/alg=%s/tp=%s", ALGS[t_alg], g_tp);
             VIOL(sig, "connect() #%d goes to %s port %d, which is not in the resolver's answer [%s]", i, ip, port, t_desc);
             continue;
         }
@@ -685,12 +686,12 @@ static void oracle_conn(enum mc_end end)
     int64_t dns_part = (t_dns == DNS_LATE || t_dns == DNS_SILENT || t_dns == DNS_FAIL_LATE) ? g_dnsto_ns : 0;
     int64_t upper = dns_part + (int64_t)N * g_cto_ns + NS / 5 + SLACK_NS;
     if (el > upper) {
-        snprintf(sig, sizeof sig, "C13/time-bound/late/alg=%s/dns=%s/tp=%s", ALGN[t_alg], DNSN[t_dns], g_tp);
+        snprintf(sig, sizeof sig, "C13/time-bound/late/alg=%s/dns=%s/tp=%s", ALGS[t_alg], DNSN[t_dns], g_tp);
         VIOL(sig, "outcome (%s) reported after %lld ms; configured bounds allow %lld ms [%s]", got,
              (long long)(el / 1000000), (long long)(upper / 1000000), t_desc);
     }
     if (!g_connected && g_errno == ETIMEDOUT && el < g_cto_ns) {
-        snprintf(sig, sizeof sig, "C13/time-bound/early-ETIMEDOUT/alg=%s/tp=%s", ALGN[t_alg], g_tp);
+        snprintf(sig, sizeof sig, "C13/time-bound/early-ETIMEDOUT/alg=%s/tp=%s", ALGS[t_alg], g_tp);
         VIOL(sig, "ETIMEDOUT reported after %lld ms, tcp.connect_timeout is %lld ms [%s]", (long long)(el / 1000000),
              (long long)(g_cto_ns / 1000000), t_desc);
     }
@@ -710,7 +711,7 @@ static void oracle_conn(enum mc_end end)
     if (!g_connected && g_errno == ENOENT) {
         /* legitimate only if the resolution exceeded dns.timeout */
         if (!(t_dns == DNS_LATE && el >= g_dnsto_ns)) {
-            snprintf(sig, sizeof sig, "C13/outcome/alg=%s/laddr=%s/unexplained-errno=ENOENT/tp=%s", ALGN[t_alg], lak, g_tp);
+            snprintf(sig, sizeof sig, "C13/outcome/alg=%s/laddr=%s/odd-errno=ENOENT/tp=%s", ALGS[t_alg], lak, g_tp);
             VIOL(sig, "ENOENT although the resolver answered within dns.timeout (+%lld ms) [%s]", (long long)(el / 1000000),
                  t_desc);
         } else
@@ -747,8 +748,8 @@ static void oracle_conn(enum mc_end end)
             if (t_list[i] == ridx && eff(i) == EFF_A)
                 in_list = 1;
         if (!in_list) {
-            snprintf(sig, sizeof sig, "C13/outcome/alg=%s/laddr=%s/want=%s/got=connected-to-ineligible-address/tp=%s",
-                     ALGN[t_alg], lak, any_acc ? "connected" : "failure", g_tp);
+            snprintf(sig, sizeof sig, "C13/outcome/alg=%s/laddr=%s/want=%s/got=foreign-peer/tp=%s",
+                     ALGS[t_alg], lak, any_acc ? "connected" : "failure", g_tp);
             VIOL(sig, "connected to %s, which is not an eligible accepting address of the answer [%s]", g_remote, t_desc);
             return;
         }
@@ -759,7 +760,7 @@ static void oracle_conn(enum mc_end end)
             if (eff(i) != EFF_A && eff_errno(eff(i)) == g_errno)
                 ok = 1;
         if (!ok) {
-            snprintf(sig, sizeof sig, "C13/outcome/alg=%s/laddr=%s/unexplained-errno=%s/tp=%s", ALGN[t_alg], lak, got, g_tp);
+            snprintf(sig, sizeof sig, "C13/outcome/alg=%s/laddr=%s/odd-errno=%s/tp=%s", ALGS[t_alg], lak, got, g_tp);
             VIOL(sig, "%s: the outcome is %s (reported by %s after %lld ms, %d connect() calls), which is not the errno of "
                  "any attempt this world can produce%s [%s]", ALGN[t_alg], got, g_by, (long long)(el / 1000000), nconn,
                  any_acc ? "; an eligible address accepts" : "", t_desc);
@@ -773,9 +774,9 @@ static void oracle_conn(enum mc_end end)
         int want_errno = want_conn ? 0 : eff_errno(eff(N - 1));
         int ok = want_conn ? (g_connected && ridx == t_list[first_acc]) : (!g_connected && g_errno == want_errno);
         if (!ok) {
-            snprintf(sig, sizeof sig, "C13/outcome/alg=%s/laddr=%s/want=%s/got=%s%s/tp=%s", ALGN[t_alg], lak,
+            snprintf(sig, sizeof sig, "C13/outcome/alg=%s/laddr=%s/want=%s/got=%s%s/tp=%s", ALGS[t_alg], lak,
                      want_conn ? "connected" : "failure", g_connected ? "connected" : got,
-                     (g_connected && want_conn) ? "-to-later-address" : "", g_tp);
+                     (g_connected && want_conn) ? "-later" : "", g_tp);
             if (want_conn)
                 VIOL(sig, "%s: the first accepting address is #%d %s, outcome is %s%s%s (reported by %s after %lld ms, "
                      "%d connect() calls) [%s]", ALGN[t_alg], first_acc, ANAME[t_list[first_acc]], got,
@@ -790,14 +791,14 @@ static void oracle_conn(enum mc_end end)
     /* happy eyeballs */
     if (any_acc) {
         if (!g_connected) {
-            snprintf(sig, sizeof sig, "C13/outcome/alg=%s/laddr=%s/want=connected/got=%s/tp=%s", ALGN[t_alg], lak, got, g_tp);
+            snprintf(sig, sizeof sig, "C13/outcome/alg=%s/laddr=%s/want=connected/got=%s/tp=%s", ALGS[t_alg], lak, got, g_tp);
             VIOL(sig, "happy_eyeballs: address #%d %s accepts but the outcome is %s (reported by %s after %lld ms) [%s]",
                  first_acc, ANAME[t_list[first_acc]], got, g_by, (long long)(el / 1000000), t_desc);
         }
     } else {
         int e4 = last4 >= 0 ? eff_errno(eff(last4)) : -1, e6 = last6 >= 0 ? eff_errno(eff(last6)) : -1;
         if (g_errno != e4 && g_errno != e6) {
-            snprintf(sig, sizeof sig, "C13/outcome/alg=%s/laddr=%s/want=failure/got=%s/tp=%s", ALGN[t_alg], lak, got, g_tp);
+            snprintf(sig, sizeof sig, "C13/outcome/alg=%s/laddr=%s/want=failure/got=%s/tp=%s", ALGS[t_alg], lak, got, g_tp);
             VIOL(sig, "happy_eyeballs: nothing accepts; the last attempts end in %s (IPv4 track) / %s (IPv6 track), outcome "
                  "is %s [%s]", e4 >= 0 ? ename(e4) : "-", e6 >= 0 ? ename(e6) : "-", got, t_desc);
         }
@@ -823,7 +824,9 @@ static void server_task(void *arg)
 {
     (void)arg;
     char addr[128];
-    snprintf(addr, sizeof addr, "%s:srv.verif.test:0", g_tp);
+    /* a port of this process' own: the UX half of a utls server is named host:port in the abstract
+       AF_UNIX namespace, which concurrent explorer workers share */
+    snprintf(addr, sizeof addr, "%s:srv.verif.test:%d", g_tp, 10000 + (int)(getpid() % 20000));
     struct xcm_attr_map *a = xcm_attr_map_create();
     xcm_attr_map_add_str(a, "xcm.service", "any");
     if (param_int((const char *)arg, "nb", 0))
@@ -835,7 +838,7 @@ static void server_task(void *arg)
     s_t_end = env_now_ns();
     s_done = 1;
     xcm_attr_map_destroy(a);
-    mc_observe("xcm_server_a(%s) -> %s", addr, s_sock ? "socket" : errname(s_errno));
+    mc_observe("xcm_server_a(%s:srv.verif.test:<port>) -> %s", g_tp, s_sock ? "socket" : errname(s_errno));
     if (s_sock)
         API("xcm_close", 0, xcm_close(s_sock));
 }
